@@ -397,16 +397,17 @@ package tcp
 // is not consumed changes neither rcvNxt nor what has been delivered.
 //@ func (*receiver).consumeSegment props C01 C04
 //@   requires rcvOK(r) && s != nil && s != r.ep.rcvList.tail
-//@   requires segLen == seqnum.Size(s.data.size) && segSeq == s.sequenceNumber && s.data.size == vsum(s.data.views) && 0 <= s.data.size && s.data.size <= 0x7fffffff
+//@   requires segLen == seqnum.Size(s.data.size) && segSeq == s.sequenceNumber && 0 <= s.data.size && s.data.size <= 0x7fffffff
 //@   requires forall(k, 0, len(r.pendingRcvdSegments), r.pendingRcvdSegments[k] != nil)
 //@   ensures implies(segLen > 0, result == (old(r.rcvNxt) - segSeq < seqnum.Value(segLen)))
 //@   ensures implies(segLen == 0, result == (segSeq == old(r.rcvNxt)))
 //@   ensures implies(!result, r.rcvNxt == old(r.rcvNxt) && ghost(delivered) == old(ghost(delivered)) && r.closed == old(r.closed))
-//@   ensures implies(result && segLen > 0, seqnum.Value(ghost(delivered) - old(ghost(delivered))) == segSeq + seqnum.Value(segLen) - old(r.rcvNxt) && ghost(delivered) - old(ghost(delivered)) >= 1 && ghost(delivered) - old(ghost(delivered)) <= int(segLen))
+//@   ensures implies(result && segLen > 0 && old(s.data.size == vsum(s.data.views)), seqnum.Value(ghost(delivered) - old(ghost(delivered))) == segSeq + seqnum.Value(segLen) - old(r.rcvNxt) && ghost(delivered) - old(ghost(delivered)) >= 1 && ghost(delivered) - old(ghost(delivered)) <= int(segLen))
 //@   ensures implies(result && segLen == 0, ghost(delivered) == old(ghost(delivered)))
 //@   ensures implies(result, r.rcvNxt == segSeq + seqnum.Value(segLen) + ite(old(s.flags) & flagFin != 0, seqnum.Value(1), seqnum.Value(0)))
 //@   ensures implies(result, r.closed == (old(r.closed) || old(s.flags) & flagFin != 0))
 //@   loop 1 invariant first <= i && i <= len(r.pendingRcvdSegments)
 //@   modifies modset(NETSEND), ghost(delivered)
 //@   modifies r.rcvNxt, r.closed, r.pendingRcvdSegments, r.rcvAcc, r.ep.sack.Blocks, r.ep.sack.NumBlocks, r.ep.rcvBufUsed, r.ep.rcvList.head, r.ep.rcvList.tail, r.ep.rcvClosed
-//@   modifies r.ep.snd.lastSendTime, r.ep.snd.rttMeasureTime, r.ep.snd.maxSentAck, structfamily(segment)
+//@   modifies r.ep.snd.lastSendTime, r.ep.snd.rttMeasureTime, r.ep.snd.maxSentAck
+//@   modifies s.sequenceNumber, s.data.views, s.data.size, elems(s.data.views), s.segmentEntry.next, s.segmentEntry.prev, r.ep.rcvList.tail.segmentEntry.next, structfamily(segment, "refCnt")
